@@ -50,9 +50,13 @@ META = dict(
          "end inside the input, and that the base's failure is a ParseException at or after the location. The "
          "whitespace hypotheses cannot just be dropped: exG2_end_differs (Lean, replayed on the real code) shows LR "
          "grammar and iterative grammar END at different offsets on '1 ' (ZeroOrMore returns the pre-parsed location when "
-         "it matches nothing) while the tokens agree - a whitespace-tolerant theorem (tokens/success only) is NOT proved; "
-         "nor are rules with actions/names on E/m/sq or with Forwards inside base/tail (parenthesised recursion) "
-         "covered. Equality of the real LR parse with the real parse of the derived repetition grammar (tokens) stays "
+         "it matches nothing) while the tokens agree. parseLR_direct_eq_parse_iterative_ws_partial is the "
+         "whitespace-tolerant version: Z and R may skip whitespace, provided the first tail element skips at least as "
+         "much itself (the situation of the live objects) - then SAME TOKENS and same failures, the end differing only "
+         "by that skipped whitespace when the repetition matches nothing (SameButEnd; parse_I_step_ws). Still assumed "
+         "there: b ignores its callPreParse flag at the location, ends inside the input, base failure at/after the "
+         "location. NOT covered by any theorem: rules with actions/names on E/m/sq (or on I/Z/R), Forwards inside "
+         "base/tail (parenthesised recursion), ignorables. Equality of the real LR parse with the real parse of the derived repetition grammar (tokens) stays "
          "decided by the real-code oracle on generated direct "
          "left-recursive rule sets; indirect / mutual left recursion is the registered finding indirect_left_recursion "
          "(the real code returns the base case only) and is kept out of the generators.",
@@ -72,7 +76,7 @@ THEOREMS = ["PP.Parse.growLoop_peek_spec", "PP.Parse.growLoop_round_grows", "PP.
             "PP.Parse.parseLR_frame", "PP.Parse.parseLR_body_eq_lrBody", "PP.Parse.parseLR_direct_eq_iterative_partial",
             "PP.Parse.growLoop_congr", "PP.Parse.growLoop_enhFix", "PP.Parse.tailOf_strict", "PP.Parse.parse_lit1_strict",
             "PP.Parse.parseLR_direct_eq_parse_iterative_partial", "PP.Parse.parse_I_step", "PP.Parse.manyLoop_eq_iterLoop",
-            "PP.Parse.exG2_end_differs"]
+            "PP.Parse.exG2_end_differs", "PP.Parse.parseLR_direct_eq_parse_iterative_ws_partial", "PP.Parse.parse_I_step_ws"]
 
 CAPS = [None, 1, 2, 4]
 
